@@ -49,7 +49,9 @@ class C05(Prop):
                 except Exception:  # noqa
                     ok = False
             if not ok:
-                int_defect = lit.isdigit() and r["error"] is None and len(st) == 1 and "**" in repr(st)
+                # the recorded finding is identified by its call site: the emitted text for an integer literal is
+                # sympy.nsimplify("<digits>"), and that very call returns the inexact value that was pushed
+                int_defect = lit.isdigit() and r["error"] is None and len(st) == 1 and repr(st[0]) == repr(sympy.nsimplify(lit))
                 if int_defect:
                     if not seen_int_defect:  # recorded finding (one witness is enough); keep looking for anything else
                         fails.append(dict(literal=lit, stack=repr(st)[:120], expected=str(want), defect_class="integer-literal-through-nsimplify"))
